@@ -506,6 +506,22 @@ theorem hmmDetection_adds_same_protoclusters (ctx : Ctx) (x : HmmDet) (hv : x.va
   refine ⟨_, HmmDet.fromJson_toJson ctx x hv, ?_⟩
   simp [RuleRes.protoclusters, RuleRes.detach, List.map_map, Function.comp_def]
 
+/-- gene annotations (`sec_met` domains, CORE / ADDITIONAL gene functions, in order) that
+    `annotate_cds_features` adds: the same after regeneration -/
+theorem hmmDetection_adds_same_annotations (ctx : Ctx) (x : HmmDet) (hv : x.valid ctx = true) :
+    ∃ y, HmmDet.fromJson ctx x.toJson = .reuse y ∧ y.rules.annotateAll = x.rules.annotateAll := by
+  refine ⟨_, HmmDet.fromJson_toJson ctx x hv, ?_⟩
+  simp [RuleRes.annotateAll, RuleRes.detach, List.flatMap_map]
+
+/-- the aSDomain / PFAM feature identifiers handed to the record are those of the originals -/
+theorem nrpsPks_adds_same_domain_ids (r : ModRules) (ctx : Ctx) (x : NrpsPks) (hv : x.valid r ctx = true) :
+    ∃ y, NrpsPks.fromJson r ctx x.toJson = .reuse y ∧ y.domainIds = x.domainIds :=
+  ⟨x, NrpsPks.fromJson_toJson r ctx x hv, rfl⟩
+
+theorem hmmer_adds_same_domain_ids (ctx : Ctx) (x : HmmerRes) (hv : x.valid ctx = true) :
+    ∃ y, HmmerRes.regenerate ctx x.evalue x.score x.toJson = .reuse y ∧ y.domainIds = x.domainIds :=
+  ⟨x, hmmer_regenerate_same_thresholds ctx x hv, rfl⟩
+
 theorem tta_adds_same_features (rid : String) (gc t : Dec) (all : List Loc) (hl : TTA.locsOk all = true) :
     ∃ y, TTA.fromJson t (TTA.detect rid gc t all).toJson = .reuse y
       ∧ y.features = (TTA.detect rid gc t all).features ∧ y.addToRecord rid = (TTA.detect rid gc t all).addToRecord rid :=
